@@ -270,7 +270,7 @@ var vtagChoices = map[string][]string{
 	"uint":     {"", "", "", "nonzero", "min=2", "max=100", "required"},
 	"float":    {"", "", "", "nonzero", "positive", "min=0.5", "max=1e3", "required"},
 	"string":   {"", "", "", "nonzero", "required"},
-	"duration": {"", "", "nonzero", "positive", "min=1s", "max=1h", "min=2", "max=0.5", "required"},
+	"duration": {"", "", "nonzero", "positive", "min=1s", "max=1h", "min=2", "max=0.5", "min=0.5", "max=1.5", "min=0.25", "required"},
 	"bool":     {"", ""},
 	"slice":    {"", "", "nonzero", "required", "min=1"},
 	"map":      {"", "", "nonzero", "required"},
@@ -350,9 +350,15 @@ var fieldNames = []string{"A", "B", "C", "D", "E"}
 var cfgNames = []string{"", "", "", "x", "y", "n.m", "a", "k"}
 
 func randStruct(r *Rng, depth int, c typeGenCfg) *tyNode {
+	return randStructIn(r, depth, c, map[string]bool{})
+}
+
+// randStructIn: [used] holds the configuration names already taken in the namespace the
+// struct's fields live in (an inline struct shares its parent's namespace).
+func randStructIn(r *Rng, depth int, c typeGenCfg, used map[string]bool) *tyNode {
 	n := 1 + r.Intn(4)
 	t := &tyNode{Kind: "struct"}
-	used := map[string]bool{}
+	dottedPrefix, listAtPrefix := "", false
 	for i := 0; i < n; i++ {
 		ft := randType(r, depth, c)
 		f := tyField{GoName: fieldNames[i], T: ft}
@@ -361,8 +367,22 @@ func randStruct(r *Rng, depth int, c typeGenCfg) *tyNode {
 		if eff == "" {
 			eff = strings.ToLower(f.GoName)
 		}
-		if used[eff] || used[strings.SplitN(eff, ".", 2)[0]] {
+		if (ft.Kind == "slice" || ft.Kind == "array") && dottedPrefix != "" && !listAtPrefix && r.P(1, 3) {
+			// a list named like the prefix of an earlier dotted name: the namespace then has a
+			// named part (the dotted field) and a list part
+			name, eff = dottedPrefix, dottedPrefix
+			listAtPrefix = true
+			used[eff] = false
+		}
+		if used[eff] || (used[strings.SplitN(eff, ".", 2)[0]] && !(listAtPrefix && eff == dottedPrefix)) {
 			name, eff = "", strings.ToLower(f.GoName)
+			for k := 0; used[eff]; k++ { // a name that is free in this namespace
+				name = fmt.Sprintf("%s%d", strings.ToLower(f.GoName), k)
+				eff = name
+			}
+		}
+		if strings.Contains(eff, ".") && dottedPrefix == "" && ft.Kind == "prim" {
+			dottedPrefix = strings.SplitN(eff, ".", 2)[0]
 		}
 		used[eff] = true
 		used[strings.SplitN(eff, ".", 2)[0]] = true
@@ -375,6 +395,11 @@ func randStruct(r *Rng, depth int, c typeGenCfg) *tyNode {
 		}
 		if c.Inline && (ft.Kind == "struct" || ft.Kind == "map") && r.P(1, 4) {
 			tag = ",inline"
+			used[eff] = false
+			if ft.Kind == "struct" { // regenerate it inside the parent's namespace
+				ft = randStructIn(r, depth+1, c, used)
+				f.T = ft
+			}
 		}
 		f.CTag = tag
 		if c.Validators && r.P(1, 2) {
@@ -392,10 +417,23 @@ func randPrimValue(r *Rng, k kindSpec) reflect.Value {
 	case k.name == "bool":
 		v.SetBool(r.Bool())
 	case k.name == "duration":
-		v.SetInt([]int64{0, int64(time.Second), int64(1500 * time.Millisecond), -int64(time.Second), int64(2 * time.Hour), 3}[r.Intn(6)])
+		v.SetInt([]int64{0, int64(time.Second), int64(1500 * time.Millisecond), -int64(time.Second), int64(2 * time.Hour), 3, int64(200 * time.Millisecond), int64(700 * time.Millisecond)}[r.Intn(8)])
 	case strings.HasPrefix(k.name, "int"):
+		if r.P(1, 4) { // the extremes of the kind
+			bits := uint(k.typ.Bits())
+			if r.Bool() {
+				v.SetInt(-1 << (bits - 1))
+			} else {
+				v.SetInt(1<<(bits-1) - 1)
+			}
+			break
+		}
 		v.SetInt([]int64{0, 1, -1, 7, 100, -100, 16}[r.Intn(7)])
 	case strings.HasPrefix(k.name, "uint"):
+		if r.P(1, 4) {
+			v.SetUint(1<<uint(k.typ.Bits()) - 1)
+			break
+		}
 		v.SetUint([]uint64{0, 1, 2, 50, 200}[r.Intn(5)])
 	case strings.HasPrefix(k.name, "float"):
 		v.SetFloat([]float64{0, 0.25, -1.5, 3, 2000}[r.Intn(5)])
@@ -469,7 +507,7 @@ func randSettingFor(r *Rng, t *tyNode, pbad int) interface{} {
 		case "string":
 			return []interface{}{"v", "", uint64(7), true, "a b"}[r.Intn(5)]
 		case "duration":
-			return []interface{}{"2s", uint64(3), 0.5, "1h", int64(0), "500ms"}[r.Intn(6)]
+			return []interface{}{"2s", uint64(3), 0.5, "1h", int64(0), "500ms", "200ms", 0.7, "1.2s"}[r.Intn(9)]
 		}
 	case "iface":
 		return randTree(r, defaultTreeCfg, 2)
